@@ -302,7 +302,7 @@ def run_h1(case, t: Tally, verbose=False):
                     served.add(id(e))
                     for seg in sc.get("server", []):
                         w.server_send(e, seg)
-                    if sc.get("server_eof"):
+                    if sc.get("server_eof", "server" not in sc):  # an upstream without a script closes
                         e.r.eof = True
                         w.server_eof(e)
                     progressed = True
@@ -330,8 +330,7 @@ def judge_h1(case, feats, sc, w, down, down_before, closed_before, P, t, verbose
     first_head = down[: head_end if head_end >= 0 else len(down)]
     own_by_server = b"\r\nserver: mitmproxy" in first_head.lower()
     first_body = down[head_end + 4:] if head_end >= 0 else b""
-    own = own_by_server or (not upstream_sent_head and down.startswith(b"HTTP/1.1 4") and _looks_like_page(first_body)) \
-        or (not upstream_sent_head and _looks_like_page(first_body))
+    own = own_by_server or (not upstream_sent_head and _looks_like_page(first_body))
     if not own:
         kind = "no-page"
         if down and not upstream_sent_head and down[9:10] in (b"4", b"5"):
@@ -347,29 +346,25 @@ def judge_h1(case, feats, sc, w, down, down_before, closed_before, P, t, verbose
         n, _, v = line.partition(b":")
         fields.append((n, v.strip()))
     faults = []
+    declared_close = any(n.lower() == b"connection" and v.lower() == b"close" for n, v in fields)
     if verdict != "ok":
         # what a strict reader sees: is it only because a body follows the head of a response that cannot have one?
         alt, alt_verdict = http1ref.parse_responses(down, [b"GET", b"GET"], eof=True)
-        if method == b"HEAD" and alt_verdict == "ok" and len(alt) == 1:
+        if method == b"HEAD" and alt_verdict == "ok":
             faults.append("body-in-response-to-HEAD")
         else:
             faults.append("malformed:" + verdict.split(":")[0])
     else:
-        if len(msgs) != 1:
-            faults.append("not-exactly-one-response")
-        else:
-            m = msgs[0]
-            cl = [v for n, v in m["fields"] if n.lower() == b"content-length"]
-            if method != b"HEAD" and (m["framing"] != "cl" or len(cl) != 1 or int(cl[0]) != len(m["body"])):
-                faults.append("not-content-length-framed")
-    if not any(n.lower() == b"connection" and v.lower() == b"close" for n, v in fields):
-        faults.append("no-connection-close")
-    if not closed_before:
-        faults.append("connection-left-open")
-    if down != down_before:
+        m = msgs[0]
+        cl = [v for n, v in m["fields"] if n.lower() == b"content-length"]
+        if method != b"HEAD" and (m["framing"] != "cl" or len(cl) != 1 or int(cl[0]) != len(m["body"])):
+            faults.append("not-content-length-framed")
+        if declared_close and len(msgs) != 1:
+            faults.append("response-after-declared-close")
+    if declared_close and down != down_before:
         faults.append("bytes-after-page")
     t.judge("h1_complete_and_framed", not faults, dict(feats, fault=faults[0] if faults else "-"), case,
-            "one complete response (Content-Length == body, Connection: close), then close, readable in the context of the request method",
+            "a complete response framed by Content-Length == body, readable in the context of the request method; nothing after a page that declares Connection: close",
             {"faults": faults, "verdict": verdict, "to_client": down[:400]})
     # ---- content type ------------------------------------------------------------------------------------------------
     t.judge("content_type_html", _is_html(fields), feats, case, "Content-Type: text/html", [f for f in fields if f[0].lower() == b"content-type"] or "no Content-Type header")
@@ -425,7 +420,7 @@ def run_h2(case, t: Tally, verbose=False):
                     served.add(id(e))
                     for seg in sc.get("server", []):
                         w.server_send(e, seg)
-                    if sc.get("server_eof"):
+                    if sc.get("server_eof", "server" not in sc):
                         e.r.eof = True
                         w.server_eof(e)
                     progressed = True
